@@ -224,6 +224,19 @@ func mutants(p *codec.Packet, emit func(kind string, in []byte)) {
 	emit("remlen-unterminated", append([]byte{enc[0], 0xff, 0xff, 0xff, 0xff, 0xff}, body...))
 	emit("remlen-nonminimal", append([]byte{enc[0], byte(remlen%128) | 0x80, byte(remlen / 128)}, body...))
 	emit("remlen-5byte", append([]byte{enc[0], 0x80 | byte(remlen%128), 0x80, 0x80, 0x80, 0x00}, body...))
+	// five-byte remaining lengths whose value does not fit 28 bits (bits 28..34 set)
+	for _, last := range []byte{0x01, 0x08, 0x0f, 0x10, 0x40, 0x70, 0x7f} {
+		emit(fmt.Sprintf("remlen-5byte-high=%#x", last), append([]byte{enc[0], 0x80 | byte(remlen%128), 0x80 | byte(remlen/128%128), 0x80, 0x80, last}, body...))
+		emit(fmt.Sprintf("remlen-5byte-high-ff=%#x", last), append([]byte{enc[0], 0xff, 0xff, 0xff, 0xff, last}, body...))
+	}
+	// longer continuation chains (6..10 length bytes)
+	for n := 5; n <= 10; n++ {
+		h := []byte{enc[0]}
+		for i := 0; i < n; i++ {
+			h = append(h, 0x80|byte(i+1))
+		}
+		emit(fmt.Sprintf("remlen-%dbyte", n+1), append(append(h, 0x01), body...))
+	}
 	emit("trailing-bytes", append(clone(enc), 0xde, 0xad))
 	// length prefixes
 	for i, off := range lpOffsets(p, enc) {
@@ -411,7 +424,16 @@ func genMutant(t *rapid.T) DCase {
 			}
 		case 3:
 			_, remlen, hdr, err := codec.Header(enc)
-			if err == nil {
+			if err == nil && rapid.IntRange(0, 3).Draw(t, "overlong") == 0 {
+				// over-long remaining length: 5..9 bytes with random high bits
+				h := []byte{enc[0]}
+				for i, n := 0, rapid.IntRange(4, 8).Draw(t, "nlen"); i < n; i++ {
+					h = append(h, 0x80|byte(rapid.IntRange(0, 127).Draw(t, "lb")))
+				}
+				h = append(h, byte(rapid.IntRange(0, 127).Draw(t, "lastlb")))
+				enc = append(h, enc[hdr:]...)
+				origin += " overlong-remlen"
+			} else if err == nil {
 				d := rapid.SampledFrom([]int{-3, -2, -1, 1, 2, 3, 127, 16384}).Draw(t, "dremlen")
 				if remlen+d >= 0 {
 					enc = append(append([]byte{enc[0]}, codec.Varint(remlen+d)...), enc[hdr:]...)
